@@ -356,6 +356,12 @@ func (e *Env) coerce(v Value, t types.Type) Value {
 			d := v
 			r.Dyn = &d
 		}
+		if v.K == VStruct && v.Typ != nil {
+			// a struct value of (named) type T stored in an interface has dynamic type T
+			if _, ok := types.Unalias(v.Typ).(*types.Named); ok {
+				e.assume(e.hasType(r, v.Typ))
+			}
+		}
 		return r
 	}
 	if v.K == VU {
